@@ -78,6 +78,7 @@ type Sym struct {
 	specFoot map[string][]string // closure-converted heap footprint of spec functions
 	specBusy map[string]bool
 	revealed map[string]bool
+	subIdx   map[string]int
 	Err      error
 	actCount int
 }
@@ -132,6 +133,9 @@ func (s *Sym) reset() {
 	s.specFoot = map[string][]string{}
 	s.specBusy = map[string]bool{}
 	s.revealed = map[string]bool{}
+	if s.subIdx == nil {
+		s.subIdx = map[string]int{}
+	}
 	if s.FC != nil {
 		for _, r := range s.FC.Reveals {
 			s.revealed[r] = true
@@ -623,4 +627,16 @@ func (s *Sym) constArray(idxSort, elemSort string) string {
 		s.emit(fmt.Sprintf("(assert (forall ((i %s)) (! (= (select %s i) %s) :pattern ((select %s i)))))", idxSort, n, zeroOf(elemSort), n))
 	}
 	return n
+}
+
+// subRef is the reference of a struct-typed field embedded by value in the
+// object at base: an injective arithmetic encoding into the negative integers
+// (never an allocated reference, distinct for distinct (object, field) pairs).
+func (s *Sym) subRef(fieldMap, base string) string {
+	idx, ok := s.subIdx[fieldMap]
+	if !ok {
+		idx = len(s.subIdx) + 1
+		s.subIdx[fieldMap] = idx
+	}
+	return fmt.Sprintf("(- 0 (+ (* %s 4096) %d))", base, idx)
 }
